@@ -8,6 +8,8 @@ import (
 	"strconv"
 	"strings"
 
+	"go.uber.org/multierr"
+
 	"github.com/gotd/td/telegram/dcs"
 	"github.com/gotd/td/tg"
 	"github.com/gotd/td/transport"
@@ -133,10 +135,52 @@ func enumerate(n int) []*sched {
 	return out
 }
 
+// flavour returns a copy of a schedule over {S,F,H,B} in which the failures get
+// combined-error shapes: v=1 F->J (errors.Join x2), H->K (write failure + failing
+// Close); v=2 F->M (multierr x3), H->K; v=3 a per-dial mix with at least one
+// combined failure. ok=false when the schedule has no failure to re-shape.
+func flavour(base *sched, v int, r *rand.Rand) (*sched, bool) {
+	s := *base
+	plan := []byte(s.Plan)
+	changed := false
+	for i, a := range plan {
+		switch a {
+		case planFail:
+			switch {
+			case v == 1:
+				plan[i] = planJoin2
+			case v == 2:
+				plan[i] = planMulti3
+			default:
+				plan[i] = []byte{planFail, planJoin2, planMulti3}[r.IntN(3)]
+			}
+		case planHandshake:
+			if v != 3 || r.IntN(2) == 0 {
+				plan[i] = planHsClose
+			}
+		}
+		changed = changed || plan[i] != a
+	}
+	if v == 3 && !changed {
+		for i, a := range plan {
+			if a == planFail {
+				plan[i], changed = planJoin2, true
+				break
+			}
+			if a == planHandshake {
+				plan[i], changed = planHsClose, true
+				break
+			}
+		}
+	}
+	s.Plan = string(plan)
+	return &s, changed
+}
+
 // randomScripted draws one scripted schedule with n dials and a random resolver configuration.
 func randomScripted(r *rand.Rand, n int) *sched {
 	s := &sched{Mode: "scripted", N: n, DC: 1 + r.IntN(5)}
-	alphabet := []byte{planSuccess, planSuccess, planFail, planFail, planHandshake, planBlock, planBadSecret}
+	alphabet := []byte{planSuccess, planSuccess, planSuccess, planFail, planFail, planJoin2, planMulti3, planHandshake, planHsClose, planBlock, planBadSecret}
 	plan := make([]byte, n)
 	for i := range plan {
 		plan[i] = alphabet[r.IntN(len(alphabet))]
@@ -185,10 +229,10 @@ func randomConfig(r *rand.Rand, s *sched, plan []byte) {
 			} else {
 				s.OptObf[i] = 1
 			}
-		case planHandshake:
+		case planHandshake, planHsClose:
 			// the full codec writes no header: without obfuscation nothing is written during connect
 			if s.Proto == 3 && !s.Obf && s.OptObf[i] == 0 {
-				plan[i] = planFail
+				plan[i] = planJoin2
 			}
 		}
 	}
@@ -197,7 +241,7 @@ func randomConfig(r *rand.Rand, s *sched, plan []byte) {
 // randomStress draws one free-running schedule.
 func randomStress(r *rand.Rand, n int) *sched {
 	s := &sched{Mode: "stress", N: n, DC: 1 + r.IntN(5), CancelAt: cancelNone}
-	alphabet := []byte{planSuccess, planSuccess, planSuccess, planFail, planFail, planHandshake, planBlock, planLate, planBadSecret}
+	alphabet := []byte{planSuccess, planSuccess, planSuccess, planSuccess, planFail, planFail, planJoin2, planMulti3, planHandshake, planHsClose, planBlock, planLate, planBadSecret}
 	plan := make([]byte, n)
 	for i := range plan {
 		plan[i] = alphabet[r.IntN(len(alphabet))]
@@ -280,6 +324,14 @@ func (e *env) build(s *sched, id int, r *rand.Rand) (*callState, dcs.List, dcs.R
 		d := &dialState{call: c, idx: i, plan: s.Plan[i]}
 		d.token = fmt.Sprintf("dialmon-failure-c%d-d%d", id, i)
 		d.fail = errors.New(d.token)
+		switch d.plan {
+		case planJoin2:
+			d.fail = errors.Join(errors.New(d.token+"-a"), errors.New(d.token+"-b"))
+		case planMulti3:
+			d.fail = multierr.Combine(errors.New(d.token+"-a"), errors.New(d.token+"-b"), errors.New(d.token+"-c"))
+		case planHsClose:
+			d.cerr = errors.New(d.token + "-close")
+		}
 		if s.OptObf != nil && s.OptObf[i] != 0 {
 			o.TCPObfuscatedOnly = true
 			o.Secret = make([]byte, 16)
